@@ -13,7 +13,7 @@
    Nothing but statements lives in this file. *)
 From Coq Require Import ZArith List Bool String.
 From VV Require Import Base.F64 Mep.Genome Lang.LangBase Gen.Templates Lang.LangDefs Lang.LangProofs
-  Lang.SynDefs Lang.SynProofs Lang.ParseProofs Lang.ReadProofs Lang.TableChecks Lang.Witness.
+  Lang.SynDefs Lang.SynProofs Lang.ParseProofs Lang.ReadProofs Lang.TableChecks Lang.CDenote Lang.Witness Lang.CDenoteExample.
 Import ListNotations.
 Local Open Scope Z_scope.
 
@@ -102,6 +102,32 @@ Theorem C19_language_strip_preserves_expression : forall f env t,
 Proof. exact language_reads_all_trees. Qed.
 Print Assumptions C19_language_strip_preserves_expression.
 
+(* 7. What the C text computes -- PARTIAL.
+   [denote lit rho h e] is the value of the C expression e over binary64: the C
+   operators + - * / < > <= >= && ?: unary - (double) and the libm functions
+   fabs sqrt floor fmod fmax fmin are the IEEE operations of Base/F64.v (exact:
+   no oracle is needed for them); [lit] is strtod on numeric literals, [rho]
+   binds the parameters of the C function.  [eval_frag] is the value the
+   interpreter yields for programs over FADD FSUB FMUL FDIV FMOD FMAX FIDIV FABS
+   FSQRT FIFL FIFE FIFZ (real.h: strict in the combined / compared arguments,
+   undefined when the result is not finite, lazy in the branches).
+   Proved, for ALL programs of that fragment (the templates are those of the
+   regenerated table): whenever the program yields a value and every leaf is
+   exact (reading its printed text back gives its value: "constants print
+   exactly", variables are bound parameters), the C text denotes that value.
+   Hypotheses: strtod("2") = 2.0; exact leaves.
+   Not proved (gap covered by the execution leg: the compiled C text is run
+   against the real src_interpreter on every run): that [eval_frag] is C01's
+   [den] over the regenerated primitive bodies (C13's closed forms add_run ...
+   say so primitive by primitive); the other primitives (FSIN FCOS FLN FSIGMOID
+   AQ need libm oracles; FIFB, > <, FLENGTH, SIFE); strings. *)
+Theorem C19_c_denotes_partial : forall lit rho env,
+  lit [50] = Some two ->
+  forall t, frag lit rho env t ->
+  forall r, eval_frag rho env t = Some r -> denote lit rho no_holes (ast env FC t) = Some (CD r).
+Proof. exact c_denotes_frag. Qed.
+Print Assumptions C19_c_denotes_partial.
+
 (* ---- non-vacuity: the hypotheses hold of real programs, the model computes,
    and on them the full chain text -> tokens -> tree closes by computation *)
 Example good_and_ok :
@@ -135,3 +161,11 @@ Proof. vm_compute. reflexivity. Qed.
 (* the hypothesis "placeholder-free terminals" of theorem 1 is needed *)
 Example placeholder_terminal_is_excluded : good_tree env0 FC t_placeholder_name = false.
 Proof. vm_compute. reflexivity. Qed.
+
+(* the hypotheses of theorem 7 hold of a real program (with a strtod that knows its
+   literals and the parameter X1 = 1.5); by the theorem its C text
+   X1<3.500000 ? (X1/sqrt(3.500000)) : fabs(X1)  denotes the interpreter's value *)
+Example c_denotes_hypotheses :
+  lit0 [50] = Some two /\ frag lit0 rho0 env1 t_exec /\
+  language_tree env1 FC t_exec = Some (bz "X1<3.500000 ? (X1/sqrt(3.500000)) : fabs(X1)").
+Proof. split; [reflexivity|]. split; [exact frag_example|]. vm_compute. reflexivity. Qed.
